@@ -256,18 +256,10 @@ class SeriesSchema(ArraySchema[pd.Series]):
             check_obj = check_obj.pandera.add_schema(self)
             return cast(pd.Series, check_obj)
 
-        validated_obj = super().validate(
-            check_obj=check_obj,
-            head=head,
-            tail=tail,
-            sample=sample,
-            random_state=random_state,
-            lazy=lazy,
-            inplace=inplace,
-        )
-        if self.index is not None:
-            validated_obj = self.index.validate(
-                validated_obj,
+        value_errors = None
+        try:
+            validated_obj = super().validate(
+                check_obj=check_obj,
                 head=head,
                 tail=tail,
                 sample=sample,
@@ -275,6 +267,38 @@ class SeriesSchema(ArraySchema[pd.Series]):
                 lazy=lazy,
                 inplace=inplace,
             )
+        except errors.SchemaErrors as exc:
+            if self.index is None:
+                raise
+            # lazy mode reports every failure: the index component is
+            # still validated, and its errors are reported together with
+            # the errors of the values
+            value_errors = exc
+            validated_obj = exc.data
+        if self.index is not None:
+            try:
+                validated_obj = self.index.validate(
+                    validated_obj,
+                    head=head,
+                    tail=tail,
+                    sample=sample,
+                    random_state=random_state,
+                    lazy=lazy,
+                    inplace=inplace,
+                )
+            except errors.SchemaErrors as exc:
+                if value_errors is None:
+                    raise
+                raise errors.SchemaErrors(
+                    schema=self,
+                    schema_errors=[
+                        *value_errors.schema_errors,
+                        *exc.schema_errors,
+                    ],
+                    data=value_errors.data,
+                ) from exc
+        if value_errors is not None:
+            raise value_errors
         return cast(pd.Series, validated_obj)
 
     def example(self, size=None) -> pd.Series:
